@@ -262,6 +262,68 @@ theorem relOK_of_skip {prev : Option Rel} {sk : Complex} {qD q : Ctx} (hok : okS
     | next => exact h4 (by simpa [okSkip] using hok)
     | later => exact h3 (by simpa [okSkip] using hok)
 
+/-- on a subselector that matches at all, the code's window test is the sibling-chain reading -/
+theorem sibWindows_chain (d : Compound) (brest : Complex) :
+    ∀ (n : Nat) (sk : Complex), sk.length ≤ n → sibWindows (sk ++ [.compound d]) = true →
+      (∃ q p, LX (sk ++ .compound d :: brest) q p) → sibChain sk = true := by
+  intro n
+  induction n with
+  | zero =>
+    intro sk hl _ _
+    have : sk = [] := List.eq_nil_of_length_eq_zero (Nat.le_zero.1 hl)
+    subst this; rfl
+  | succ n ih =>
+    intro sk hl hw hlx
+    match sk, hl, hw, hlx with
+    | [], _, _, _ => rfl
+    | .comb cb :: _, _, _, ⟨q, p, h⟩ => exact absurd h (LX_comb_head _ _ _ _)
+    | [.compound c], _, hw, _ => simp [sibWindows] at hw
+    | .compound c :: .compound c' :: sk', _, hw, _ => simp [sibWindows] at hw
+    | .compound c :: .comb cb :: sk', hl, hw, ⟨q, p, h⟩ =>
+      simp only [List.cons_append] at h hw
+      obtain ⟨_, q2, _, hl2⟩ := (LX_comb _ _ _ _ _).1 h
+      have hlen : sk'.length ≤ n := by simp only [List.length_cons] at hl; omega
+      simp only [sibWindows, Bool.and_eq_true, bne_iff_ne, ne_eq] at hw
+      have hw' : sibWindows (sk' ++ [.compound d]) = true := by
+        match sk', hw.2, hl2 with
+        | [], _, _ => simp [sibWindows]
+        | .compound c' :: r, hw2, _ => simpa [sibWindows] using hw2
+        | .comb cb' :: r, _, hl2 => exact absurd hl2 (LX_comb_head _ _ _ _)
+      have := ih sk' hlen hw' ⟨q2, p, hl2⟩
+      simp [sibChain, hw.1, this]
+
+theorem okSkip_of_compat {prev : Option Rel} {sk : Complex} {d : Compound} {brest : Complex} {q p : Ctx}
+    (hc : compatPrev prev (sk ++ [.compound d]) = true) (hlx : LX (sk ++ .compound d :: brest) q p) :
+    okSkip prev sk = true := by
+  cases prev with
+  | none => rfl
+  | some r =>
+    cases r with
+    | desc => rfl
+    | child =>
+      simp only [compatPrev, List.length_append, List.length_cons, List.length_nil, decide_eq_true_eq] at hc
+      have : sk = [] := List.eq_nil_of_length_eq_zero (by omega)
+      subst this; rfl
+    | next =>
+      simp only [compatPrev, List.length_append, List.length_cons, List.length_nil, decide_eq_true_eq] at hc
+      have : sk = [] := List.eq_nil_of_length_eq_zero (by omega)
+      subst this; rfl
+    | later =>
+      simp only [compatPrev, Bool.or_eq_true, decide_eq_true_eq, List.length_append, List.length_cons,
+        List.length_nil] at hc
+      rcases hc with hc | hc
+      · have : sk = [] := List.eq_nil_of_length_eq_zero (by omega)
+        subst this; rfl
+      · exact sibWindows_chain d brest sk.length sk (Nat.le_refl _) hc ⟨q, p, hlx⟩
+
+theorem okSkip_nil (prev : Option Rel) : okSkip prev [] = true := by
+  cases prev with
+  | none => rfl
+  | some r => cases r <;> simp [okSkip, sibChain]
+
+/-- after `>`, `+`, `~` in the superselector -/
+def strictPrev (prev : Option Rel) : Prop := prev = some .child ∨ prev = some .next ∨ prev = some .later
+
 theorem scan_spec (sup : Compound → Compound → Complex → Bool) (c1 : Compound) :
     ∀ (b sk0 sk : Complex) (d : Compound) (brest : Complex), scan sup c1 sk0 b = some (sk, d, brest) →
       ∃ sk', sk = sk0 ++ sk' ∧ b = sk' ++ .compound d :: brest ∧ sup c1 d (sk.drop 1) = true ∧ brest ≠ [] := by
@@ -307,41 +369,61 @@ theorem getLast_split {α : Type} : ∀ (b : List α) (d : α), b.getLast? = som
 theorem walk_sound (sup : Compound → Compound → Complex → Bool) (P : Compound → Prop)
     (hsup : ∀ c d ps q, P c → sup c d ps = true → mComp d q = true → mComp c q = true) :
     ∀ (n : Nat) (a : Complex) (prev : Option Rel) (b : Complex), a.length ≤ n →
-      (∀ c, Component.compound c ∈ a → P c) → walk false sup prev a b = true →
+      (∀ c, Component.compound c ∈ a → P c) →
+      -- the `remaining1 == 3 && remaining2 > 3` guard of the previous round (complex.rs:264)
+      (strictPrev prev → a.length = 1 → b.length ≤ 1) →
+      walk false sup prev a b = true →
       ∀ q p, LX b q p → ∃ q', LX a q' p ∧ RelOK prev q' q := by
   intro n
   induction n with
   | zero =>
-    intro a prev b hl _ hw
+    intro a prev b hl _ _ hw
     have : a = [] := List.eq_nil_of_length_eq_zero (Nat.le_zero.1 hl)
     subst this; simp [walk] at hw
   | succ n ih =>
-    intro a prev b hl hP hw q p hb
+    intro a prev b hl hP hinv hw q p hb
     obtain ⟨c0, btl, hbe⟩ : ∃ c0 btl, b = .compound c0 :: btl := by
       match b, hb with
       | [], hb => exact absurd hb (LX_nil _ _)
       | .comb _ :: _, hb => exact absurd hb (LX_comb_head _ _ _ _)
       | .compound c0 :: btl, _ => exact ⟨c0, btl, rfl⟩
-    match a, hl, hP, hw with
-    | [], _, _, hw => simp [walk] at hw
-    | .comb _ :: _, _, _, hw => simp [walk] at hw
-    | [.compound c1], _, hP, hw =>
+    match a, hl, hP, hinv, hw with
+    | [], _, _, _, hw => simp [walk] at hw
+    | .comb _ :: _, _, _, _, hw => simp [walk] at hw
+    | [.compound c1], _, hP, hinv, hw =>
       unfold walk at hw
       rw [hbe] at hw
       simp only at hw
       rw [← hbe] at hw
       split at hw
       · rename_i d hlast
-        simp only [Bool.false_or, Bool.and_eq_true] at hw
         have hsplit := getLast_split b _ hlast
+        have hok : okSkip prev b.dropLast = true := by
+          cases prev with
+          | none => rfl
+          | some r =>
+            cases r with
+            | desc => rfl
+            | child =>
+              have hb1 := hinv (Or.inl rfl) rfl
+              have : b.dropLast = [] := List.eq_nil_of_length_eq_zero (by simp; omega)
+              rw [this]; rfl
+            | next =>
+              have hb1 := hinv (Or.inr (Or.inl rfl)) rfl
+              have : b.dropLast = [] := List.eq_nil_of_length_eq_zero (by simp; omega)
+              rw [this]; rfl
+            | later =>
+              have hb1 := hinv (Or.inr (Or.inr rfl)) rfl
+              have : b.dropLast = [] := List.eq_nil_of_length_eq_zero (by simp; omega)
+              rw [this]; rfl
         rw [hsplit] at hb
         obtain ⟨qD, h1, h2, h3, h4⟩ := skip_prefix d [] p _ b.dropLast q (Nat.le_refl _) hb
         obtain ⟨e, hd⟩ := (LX_single _ _ _).1 h1
         subst e
-        refine ⟨qD, (LX_single _ _ _).2 ⟨rfl, hsup c1 d _ qD (hP c1 (by simp)) hw.2 hd⟩, ?_⟩
-        exact relOK_of_skip hw.1 h2 h3 h4
+        refine ⟨qD, (LX_single _ _ _).2 ⟨rfl, hsup c1 d _ qD (hP c1 (by simp)) hw hd⟩, ?_⟩
+        exact relOK_of_skip hok h2 h3 h4
       · cases hw
-    | .compound c1 :: .comb cb1 :: a', hl, hP, hw =>
+    | .compound c1 :: .comb cb1 :: a', hl, hP, _, hw =>
       unfold walk at hw
       rw [hbe] at hw
       simp only at hw
@@ -354,7 +436,7 @@ theorem walk_sound (sup : Compound → Compound → Complex → Bool) (P : Compo
           split at hw
           · cases hw
           · rename_i hok
-            have hok : okSkip prev sk = true := by simpa using hok
+            have hcomp : compatPrev prev (sk ++ [.compound d]) = true := by simpa using hok
             obtain ⟨sk', e1, e2, e3, e4⟩ := scan_spec sup c1 b [] sk d brest hscan
             simp only [List.nil_append] at e1; subst e1
             split at hw
@@ -364,12 +446,21 @@ theorem walk_sound (sup : Compound → Compound → Complex → Bool) (P : Compo
               · rename_i hcompat
                 split at hw
                 · cases hw
-                · rw [e2] at hb
+                · rename_i hguard
+                  have hinv' : strictPrev (some cb1.rel) → a'.length = 1 → brest'.length ≤ 1 := by
+                    intro _ ha1
+                    have hlen2 := congrArg List.length e2
+                    simp only [List.length_append, List.length_cons] at hlen2
+                    have : ¬ (b.length > 3) := by
+                      intro hgt; apply hguard; simp [ha1, hgt]
+                    omega
+                  rw [e2] at hb
+                  have hok := okSkip_of_compat hcomp hb
                   obtain ⟨qD, h1, h2, h3, h4⟩ := skip_prefix d _ p _ sk q (Nat.le_refl _) hb
                   obtain ⟨hd, q2, hq2, hrest⟩ := (LX_comb _ _ _ _ _).1 h1
                   have hlen : a'.length ≤ n := by simp only [List.length_cons] at hl; omega
                   obtain ⟨q2', hl', hrel⟩ := ih a' (some cb1.rel) brest' hlen
-                    (fun c hc => hP c (by simp [hc])) hw q2 p hrest
+                    (fun c hc => hP c (by simp [hc])) hinv' hw q2 p hrest
                   refine ⟨qD, (LX_comb _ _ _ _ _).2 ⟨hsup c1 d _ qD (hP c1 (by simp)) e3 hd, q2', ?_, hl'⟩,
                     relOK_of_skip hok h2 h3 h4⟩
                   cases cb1 with
@@ -389,7 +480,7 @@ theorem walk_sound (sup : Compound → Compound → Complex → Bool) (P : Compo
                       intro e; subst e; simp [combClash] at hcompat
                     exact later_of_sib this hrel hq2
             · cases hw
-    | .compound c1 :: .compound c2 :: a'', hl, hP, hw =>
+    | .compound c1 :: .compound c2 :: a'', hl, hP, _, hw =>
       unfold walk at hw
       rw [hbe] at hw
       simp only at hw
@@ -402,10 +493,13 @@ theorem walk_sound (sup : Compound → Compound → Complex → Bool) (P : Compo
           split at hw
           · cases hw
           · rename_i hok
-            have hok : okSkip prev sk = true := by simpa using hok
+            have hcomp : compatPrev prev (sk ++ [.compound d]) = true := by simpa using hok
             obtain ⟨sk', e1, e2, e3, e4⟩ := scan_spec sup c1 b [] sk d brest hscan
             simp only [List.nil_append] at e1; subst e1
             rw [e2] at hb
+            have hok := okSkip_of_compat hcomp hb
+            have hnd : ∀ (x y : Complex), strictPrev (some Rel.desc) → x.length = 1 → y.length ≤ 1 := by
+              intro _ _ h; rcases h with h | h | h <;> cases h
             obtain ⟨qD, h1, h2, h3, h4⟩ := skip_prefix d _ p _ sk q (Nat.le_refl _) hb
             have hlen : (Component.compound c2 :: a'').length ≤ n := by
               simp only [List.length_cons] at hl ⊢; omega
@@ -419,7 +513,7 @@ theorem walk_sound (sup : Compound → Compound → Complex → Bool) (P : Compo
                 have hcb : cb2 = .child := by simpa using hcb
                 subst hcb
                 obtain ⟨hd, q2, hq2, hrest⟩ := (LX_comb _ _ _ _ _).1 h1
-                obtain ⟨q2', hl', hrel⟩ := ih _ (some .desc) brest' hlen hP' hw q2 p hrest
+                obtain ⟨q2', hl', hrel⟩ := ih _ (some .desc) brest' hlen hP' (hnd _ _) hw q2 p hrest
                 exact ⟨qD, (LX_desc _ _ _ _ _).2 ⟨hsup c1 d _ qD (hP c1 (by simp)) e3 hd, q2',
                   desc_of_any hrel (Or.inr hq2), hl'⟩, relOK_of_skip hok h2 h3 h4⟩
             · rename_i hnc
@@ -428,7 +522,7 @@ theorem walk_sound (sup : Compound → Compound → Complex → Bool) (P : Compo
               | .comb cb :: r, _, hnc, _, _ => exact absurd rfl (hnc cb r)
               | .compound e :: r, _, _, h1, hw =>
                 obtain ⟨hd, q2, hq2, hrest⟩ := (LX_desc _ _ _ _ _).1 h1
-                obtain ⟨q2', hl', hrel⟩ := ih _ (some .desc) _ hlen hP' hw q2 p hrest
+                obtain ⟨q2', hl', hrel⟩ := ih _ (some .desc) _ hlen hP' (hnd _ _) hw q2 p hrest
                 exact ⟨qD, (LX_desc _ _ _ _ _).2 ⟨hsup c1 d _ qD (hP c1 (by simp)) e3 hd, q2',
                   desc_of_any hrel (Or.inl hq2), hl'⟩, relOK_of_skip hok h2 h3 h4⟩
 
@@ -461,6 +555,11 @@ theorem okSkip_nil (prev : Option Rel) : okSkip prev [] = true := by
   | none => rfl
   | some r => cases r <;> simp [okSkip, sibChain]
 
+theorem compatPrev_single (prev : Option Rel) (c : Compound) : compatPrev prev [.compound c] = true := by
+  cases prev with
+  | none => rfl
+  | some r => cases r <;> simp [compatPrev]
+
 theorem combClash_self (cb : Comb) : combClash cb cb = false := by cases cb <;> simp [combClash]
 
 theorem walk_refl (af : Bool) (sup : Compound → Compound → Complex → Bool) :
@@ -479,7 +578,7 @@ theorem walk_refl (af : Bool) (sup : Compound → Compound → Complex → Bool)
     | .comb _ :: _, _, hf, _ => simp [fwd] at hf
     | [.compound c], _, _, hs =>
       unfold walk
-      simp [okSkip_nil, hs c (by simp)]
+      simp [hs c (by simp)]
     | .compound c :: .comb cb :: a', hl, hf, hs =>
       have hf' : (fwd a').isSome = true := by
         simp only [fwd] at hf
@@ -492,7 +591,7 @@ theorem walk_refl (af : Bool) (sup : Compound → Compound → Complex → Bool)
       have hrec := ih a' (some cb.rel) hlen hf' (fun c hc => hs c (by simp [hc]))
       unfold walk
       simp only [List.length_cons, scan, hs c (by simp), if_true]
-      simp [okSkip_nil, combClash_self, hrec]
+      simp [compatPrev_single, combClash_self, hrec]
       omega
     | .compound c :: .compound c2 :: a'', hl, hf, hs =>
       have hf' : (fwd (.compound c2 :: a'')).isSome = true := by
@@ -502,7 +601,7 @@ theorem walk_refl (af : Bool) (sup : Compound → Compound → Complex → Bool)
       have hrec := ih _ (some .desc) hlen hf' (fun c' hc => hs c' (List.mem_cons_of_mem _ hc))
       unfold walk
       simp only [List.length_cons, scan, hs c (by simp), if_true]
-      simp [okSkip_nil, hrec]
+      simp [compatPrev_single, hrec]
 
 theorem fwd_last (A : Complex) : (fwd A).isSome = true → ∃ c, A.getLast? = some (.compound c) := by
   fun_induction fwd A with
